@@ -63,8 +63,11 @@ def seams(block: int | None = None, chunk: int | None = None, **more):
 
     def setit(mod, attr, val):
         if not hasattr(mod, attr):
-            raise SeamMissing(f"{mod.__name__}.{attr}")
-        saved.append((mod, attr, getattr(mod, attr)))
+            if attr != "open":  # `open` is the builtin seen through the module's globals: shadowing it is the seam
+                raise SeamMissing(f"{mod.__name__}.{attr}")
+            saved.append((mod, attr, _MISSING))
+        else:
+            saved.append((mod, attr, getattr(mod, attr)))
         setattr(mod, attr, val)
 
     try:
@@ -80,11 +83,20 @@ def seams(block: int | None = None, chunk: int | None = None, **more):
         yield
     finally:
         for mod, attr, val in reversed(saved):
-            setattr(mod, attr, val)
+            if val is _MISSING:
+                try:
+                    delattr(mod, attr)
+                except AttributeError:
+                    pass
+            else:
+                setattr(mod, attr, val)
 
 
 class SeamMissing(Exception):
     pass
+
+
+_MISSING = object()
 
 
 _key_cache: dict = {}
